@@ -244,3 +244,73 @@ Example C05_deep_example :
     [("f[o][x]", ["3"]); ("f[o][y][0]", ["4"]); ("f[rows][0][k]", ["u"]); ("f[rows][1][k]", ["v"]); ("fs[o][x]", ["9"])]
   = DRes (PO [("o", PO [("x", PI64 3); ("y", PA [PI64 4])]); ("rows", PA [PO [("k", PS "u")]; PO [("k", PS "v")]])]) true None.
 Proof. vm_compute. reflexivity. Qed.
+
+(* ---- arrays whose items schema is a composition (Model/ItemComp.v: parseValue, shared by the query
+   decoder and by the array parser of path, header and cookie parameters) ---- *)
+From KV Require Import Model.ItemComp Proofs.ItemCompProofs.
+
+(* a schema without composition keywords is read as before: the theorems on plain items carry over *)
+Theorem C05_items_plain_schema_as_before :
+  forall pi64 pi32 pf raw c i p a,
+  parse_value pi64 pi32 pf raw (Sch c None [] [] [] i p a) = parse_primitive pi64 pi32 pf raw c.
+Proof. exact pv_plain. Qed.
+
+(* allOf: a member that states no type (only constraints) can be added anywhere in the list without
+   changing what is decoded - for member lists of any length, nested compositions included *)
+Theorem C05_items_allOf_typeless_member_transparent :
+  forall pi64 pi32 pf raw c nt oo ao l1 l2 i p a tc ti tp ta,
+  c_types tc = None -> l1 ++ l2 <> [] ->
+  parse_value pi64 pi32 pf raw (Sch c nt oo ao (l1 ++ Sch tc None [] [] [] ti tp ta :: l2) i p a)
+  = parse_value pi64 pi32 pf raw (Sch c nt oo ao (l1 ++ l2) i p a).
+Proof. exact allOf_typeless_member_transparent. Qed.
+Print Assumptions C05_items_allOf_typeless_member_transparent.
+
+(* allOf: when the members that read the text agree on the value and the others yield nothing, that value is decoded *)
+Theorem C05_items_allOf_reads_value :
+  forall pi64 pi32 pf raw c nt oo ao al i p a v,
+  v <> PNil -> (forall m, In m al -> parse_value pi64 pi32 pf raw m = PROk v \/ parse_value pi64 pi32 pf raw m = PROk PNil) ->
+  (exists m, In m al /\ parse_value pi64 pi32 pf raw m = PROk v) ->
+  parse_value pi64 pi32 pf raw (Sch c nt oo ao al i p a) = PROk v.
+Proof. exact allOf_reads_value. Qed.
+
+(* anyOf: the first member that reads the text decides; oneOf: the single member that reads it *)
+Theorem C05_items_anyOf_first_reader :
+  forall pi64 pi32 pf raw c nt oo l1 m l2 i p a v,
+  (forall x, In x l1 -> exists e, parse_value pi64 pi32 pf raw x = PRErr e) -> parse_value pi64 pi32 pf raw m = PROk v ->
+  parse_value pi64 pi32 pf raw (Sch c nt oo (l1 ++ m :: l2) [] i p a) = PROk v.
+Proof. exact anyOf_first_reader. Qed.
+Theorem C05_items_oneOf_single_reader :
+  forall pi64 pi32 pf raw c nt l1 m l2 i p a v,
+  (forall x, In x l1 -> exists e, parse_value pi64 pi32 pf raw x = PRErr e) ->
+  (forall x, In x l2 -> exists e, parse_value pi64 pi32 pf raw x = PRErr e) -> parse_value pi64 pi32 pf raw m = PROk v ->
+  parse_value pi64 pi32 pf raw (Sch c nt (l1 ++ m :: l2) [] [] i p a) = PROk v.
+Proof. exact oneOf_single_reader. Qed.
+(* ... and a text two members read is refused: with strconv.ParseBool reading "1", oneOf: [integer, boolean] refuses 1 *)
+Theorem C05_items_oneOf_two_readers_refused :
+  forall pi64 pi32 pf raw c nt m1 m2 l i p a v1 v2,
+  parse_value pi64 pi32 pf raw m1 = PROk v1 -> parse_value pi64 pi32 pf raw m2 = PROk v2 ->
+  exists e, parse_value pi64 pi32 pf raw (Sch c nt (m1 :: m2 :: l) [] [] i p a) = PRErr e.
+Proof. exact oneOf_two_readers_refused. Qed.
+
+(* the array: texts that the items schema reads element by element come back as the array of those elements *)
+Theorem C05_items_array_roundtrip :
+  forall pi64 pi32 pf item raws vs,
+  Forall2 (fun x v => parse_value pi64 pi32 pf x item = PROk v /\ v <> PNil) raws vs ->
+  parse_array_v pi64 pi32 pf raws item [] = PROk (PA vs).
+Proof. intros pi64 pi32 pf item raws vs H. exact (array_of_read_elements pi64 pi32 pf item raws vs H []). Qed.
+Print Assumptions C05_items_array_roundtrip.
+
+(* non-vacuity: items allOf: [{minimum: 1}, {type: integer}, {minimum: 1}] reads 7,8,9; anyOf: [boolean, integer] reads 7 as 7
+   and 1 as true; oneOf: [integer, boolean] refuses 1 *)
+Example C05_items_example :
+  let pi := fun s => if String.eqb s "7" then Some 7%Z else if String.eqb s "8" then Some 8%Z else if String.eqb s "9" then Some 9%Z
+                     else if String.eqb s "1" then Some 1%Z else None in
+  let pf := fun _ : string => @None float in
+  let core := fun ts mn => mkCoreD ts [] false false false false "" false false false mn None None 0 None "" 0 None [] 0 None None None in
+  let ty := fun t => Sch (core (Some [t]) None) None [] [] [] None [] None in
+  let min1 := Sch (core None (Some 1%float)) None [] [] [] None [] None in
+  let comp := fun oo ao al => Sch (core None None) None oo ao al None [] None in
+  parse_array_v pi pi pf ["7"; "8"; "9"] (comp [] [] [min1; ty "integer"; min1]) [] = PROk (PA [PI64 7; PI64 8; PI64 9]) /\
+  parse_array_v pi pi pf ["7"; "1"] (comp [] [ty "boolean"; ty "integer"] []) [] = PROk (PA [PI64 7; PB true]) /\
+  parse_value pi pi pf "1" (comp [ty "integer"; ty "boolean"] [] []) = PRErr DOther.
+Proof. vm_compute. repeat split. Qed.
